@@ -156,6 +156,9 @@ func (c *Ctx) Transition(from uint64, label string, to uint64) {
 // Count adds a member to an arbitrary named set.
 func (c *Ctx) Count(set string, parts ...string) { c.st.add(set, Hash(parts...)) }
 
+// ChoiceList returns the choices drawn so far on this leaf.
+func (c *Ctx) ChoiceList() []int { return choicesOf(c.points[:c.pos]) }
+
 // Describe registers a lazily evaluated description of the leaf (evidence samples, replay files).
 func (c *Ctx) Describe(f func() interface{}) { c.describe = f }
 
